@@ -1,24 +1,112 @@
-P = {
-    "level_text": "Theorems (kernel-checked). History level: for EVERY history of API calls the discovery reply computed from the model state, read as maps from addresses, equals the SPEC - what the application declared (entities attached; per entity and feature number the type, role, description; per function the read/write flags of its first addition), folded over the calls and the numbers they returned; inside the domain the reply has no duplicate keys (c07_refines; per state c07_reply_faithful, for a read overlapping AddEntity / RemoveEntity c07_reply_faithful_held; per operation c07_feature_announced, c07_function_announced, c07_function_first_wins, c07_function_client_ignored). Announced CONTENTS: the device description of a reply and the destination list - one entry, the constructor arguments (device address, device type, feature set), filters ignored, independent of entities and peers, unanswered for an unknown source feature (c07_destination_list; node management announces the destination-list function iff a feature set other than simple is given, c07_destination_list_function_announced); every announced feature names each function once, exactly the functions the SPEC declares, with the read / write / partial-write flags of the first addition, never a partial read, partial write only with write (c07_supported_functions). Every announced address resolves back to that feature (c07_resolves), announced addresses pairwise distinct inside the domain 'an entity is added only while not part of the device' (c07_addresses_unique, with the counterexample outside). Over ANY history the partial notifications each peer received are exactly one per AddEntity / RemoveEntity performed while it was subscribed, in order, added with the features / removed without, none otherwise (c07_notifications_history; per step c07_entity_added_notification, c07_entity_removed_notification, c07_notifications_only_to_subscribers); what a healthy peer receives does not depend on which other peers' connections fail, a failing peer receives nothing (c07_notify_independent_of_other_failures). Numbers fresh and one feature per type and role sequentially (c07_ids_fresh_tree, c07_fresh_number, c07_one_feature_per_type_role_sequential, c07_get_or_add_idempotent). NEVER REUSED as a theorem over histories (deepening round): for every history and every continuation that does not replace the entity object - it may be removed from the device and added again any number of times - the numbers the object hands out (NextFeatureId, or to a feature GetOrAddFeature creates), in the order of time, are strictly increasing, above every number the entity had, and are what the calls returned (c07_numbers_never_reused_history). Event model Spine.Feat, ALL interleavings of any number of calls: numbers never duplicated in both members (c07_ids_fresh); all numbers DRAWN from the generator, numbers burnt by NextFeatureId included, are strictly increasing in the order of time, both members (c07_numbers_never_reused); a call is handed a feature of the type and role it ASKED for, which is in the list at the end (c07_handed_what_was_asked, both members; the model's record of results is exactly the observer's list); a lookup answers or leaves the call pending with its request and the creation event of a pending call answers it (c07_call_answered); for the member the current tree is (recheck = true, creation looks up again under the lock; regenerated facts c07_creation_rechecks_under_lock, c07_generator_is_one_event, c07_current_tree_one_feature_per_type_role re-checked against the source text on every run) one feature per type and role and one and the same feature for every caller - any two calls that ASKED for the same type and role, however their lookups and creations interleave (c07_one_feature_per_type_role, c07_same_feature, c07_same_feature_asked; regenerated in addition: every search of the feature list in GetOrAddFeature happens under the entity lock, c07_lookup_is_one_event); for the pinned commit's member (recheck = false) refuted by the kernel-checked schedule lookup1 lookup2 create1 create2 (c07_one_feature_per_type_role_refuted, c07_same_feature_refuted, c07_same_feature_asked_refuted; finding get-or-add-double-creation, recorded as fixed) and proved when no calls overlap (c07_one_feature_per_type_role_partial). Tie: op-by-op differential run against the real DeviceLocal / EntityLocal / FeatureLocal with real subscription, read, reply and notify datagrams of three peers, with writer faults as a generator dimension (per peer: healthy, or set up without a writer so that every send to it returns an error - the only way a Sender fails, the writer interface has no error return; failing peer first / middle / last in a permuted subscription order; the monitor requires one discovery and one use-case notification per change for every healthy subscriber regardless of the others), including reads held in the middle of their walk over the entities while an entity is added or removed; witness and all interleavings of two (thorough: three) overlapping GetOrAddFeature calls driven through the yield hook, random interleavings of four to six overlapping calls with NextFeatureId calls and non-overlapped calls in between; at the end of every feature history the two observers the schedule theorems are stated with - the numbers drawn from the generator in the order of time, and the completed calls as (operation, type asked, role asked, number handed back) - are printed by the model driver and compared with the implementation's own record; a probe selects the member. SECOND WAVE. The CONTENT of the notifications is a theorem against the SPEC: over ANY history the notifications a peer received, read as maps (added / removed, slot, entity type, feature number to type, role, description, operations), are exactly the list computed from the SPEC maps alone, folded over the calls and the numbers they returned; the reading loses nothing (c07_notification_content; per step c07_entity_notification_content: the feature list of an added-notification read as a map IS the SPEC feature map of that slot at that prefix). A READ THAT OVERLAPS ADDITIONS is modelled as events (Spine/LocalTreeRead.lean: the entity list is taken once, then per entity its feature list, then per feature the operations map and the description - the four lock regions of processReadDetailedDiscoveryData / FeatureLocal.Information; application calls interleave anywhere): a read nothing overlaps ends and is the atomic read of the tree model (c07_read_events_refine_atomic_read); with ONE overlapping call of any kind at any point of the walk the reply is exactly the tree before the call or exactly the tree after it, a linearisable snapshot (c07_overlapped_read_one_call; hypotheses: the state invariant, which every reachable state has, and distinct entity addresses); for ANY schedule with any number of overlapping calls the entity list is the one of the start (c07_overlapped_read_entities) and the feature part lies between the tree at the start and the tree at the end of the read, feature by feature: every entry is a feature the tree has at the end, with that type and role and only functions it has by then, and every feature of the start has an entry with at least the functions it had then (c07_overlapped_read_sandwich); with two overlapping calls the reply can be the tree of no moment - kernel-checked schedule, reproduced on the real code (c07_overlapped_read_not_atomic_refuted; an observation, not a finding). Tie: block 1b of TestLocalTree holds the real read at entity boundaries (gate in the entity Information(), once or twice per read) while features, functions, descriptions and entities are added, and compares the reply with drv_ltree running the event model (corpus, exhaustive grid 2 hold points x held once or moved on x 9 x 9 additions, random histories); a model-free sandwich monitor judges every overlapped reply (entities of the start; every feature between its state at the start and at the end).",
-    "level_note": "Round 5 follow-up: the shared generator `entitylocal` recognises package-level mutexes by type for every form of declaration and locates the use-case helpers in the whole package model (design/audit-C07.md, last section); C07's facts unchanged. Audit of the statement clause by clause (theorem, strength before / after the deepening round, tie): design/audit-C07.md. The SPEC of c07_refines is folded over the trace (calls WITH the numbers they returned), as the application sees it; that the returned numbers are fresh is c07_fresh_number / c07_ids_fresh. The notification SPEC takes the notification's content (entity type, features at that moment) from the model state; c07_refines identifies it with the declared one. Trusted: Lean kernel; hand-written models; translator generator `entitylocal` (go/ast, about 450 lines: event traces through helpers and function literals); harness incl. its bookkeeping and the schedule driver (A-sched). Domain: distinct entity addresses, features obtained through GetOrAddFeature / NextFeatureId (the API rejects neither a duplicate address nor a hand-made duplicate number); RemoveEntity also emits a use-case notify when use-case data exists - not a detailed-discovery notify, not counted (modelled and compared). Partial flags are part of the observation: the model takes the partial-update capability of a function on a feature type from the regenerated factory table (Spine.Generated.Functions, looked up by name in the driver); the monitor itself only requires 'no partial read, partial write only with write', so a wrong partial-write value shows as a correspondence violation. Observations, not judged: a function added again with other flags keeps the flags of its first addition (explicit guard in AddFunctionType; counted as fn:again-other-flags-ignored); the destination list is answered even when node management does not announce the function (feature set none / simple); the order of supportedFunction follows Go's map iteration and differs from read to read (compared as a set). Order of entities / features in the reply is compared with the model but not required by the monitor. Second wave: the content of a notification against the SPEC is a theorem now (c07_notification_content). Overlapped reads: the sandwich (c07_overlapped_read_sandwich) is what the harness's model-free monitor judges on the real replies (keys overlapped-read-*); NOT proved - that the description of an entry is one the feature carried since the read started (monitored: overlapped-read-description-never-set); the event points between the features of one entity and between Operations() and Description() of one feature are in the model but cannot be held by the harness (no hook there; holds are at entity boundaries); a fresh object for a slot (renew) during a held read is outside the event model and not performed; no generator re-checks the lock structure of the read against the source text - the differential run with held reads is the tie. The mixture reply under two overlapping additions is recorded as an observation (the statement quantifies over reads INTERLEAVED with additions; the read is not one critical section by design), its frequency is a generator floor. Observers Spine.Feat.drawn / answers (Spine/FeatureMore.lean) are defined from the event and the state it meets, the model itself is unchanged; res_eq_answers shows they lose nothing the model records.",
-    "props_modules": ["Spine.Props.C07", "Spine.Props.C07Gen"],
-    "generated_props": ["Spine.Props.C07Gen"],
-    "generated": ["entitylocal", "functions"],
-    "generated_files": ["EntityLocal.lean", "Functions.lean"],
-    "lemma_modules": ["Spine.LocalTreeThm", "Spine.LocalTreeSpec", "Spine.LocalTreeNote", "Spine.LocalTreeRead", "Spine.LocalTreeReadThm", "Spine.FeatureMore", "Spine.LocalTreeMore"],
-    "drivers": ["drv_ltree", "drv_feat"],
-    "tests": [{"name": "TestLocalTree"}],
-    "trusted_base": [
-        "observers Spine.Feat.drawnOf / answerOf and Spine.LTree.drawnAt (which event hands out which number / completes which call) transcribed by hand; compared with the implementation by the harness (drawn, answers) and op by op (returned numbers)",
-        "models Spine.LTree (device_local.go AddEntity/RemoveEntity/notifySubscribersOfEntity/FeatureByAddress, entity_local.go, entity.go NextFeatureId, feature_local.go AddFunctionType/Information, operations.go, nodemanagement_detaileddiscovery.go:22-50) and Spine.Feat (GetOrAddFeature as lookup/create events) transcribed by hand; names interned to numbers by the harness",
-        "yield hook spine.VerifYield at site GetOrAddFeature.miss (A-sched); goroutines identified by runtime goroutine id",
-        "event model of the detailed-discovery read (Spine/LocalTreeRead.lean: which lock region reads what, in which order) transcribed by hand from nodemanagement_detaileddiscovery.go:22-50, entity_local.go Features(), feature.go Operations() / Description(); the gate that holds the real read is a wrapper around EntityLocal.Information() (harness)",
-    ],
-    "assumptions": [
-        "A-sched", "A-mutex",
-        "a read overlapping AddEntity / RemoveEntity is modelled as 'entity list taken before the operation' (heldRead); reads overlapping feature / function / description additions are modelled as events (Spine/LocalTreeRead.lean) and explored with the read held at entity boundaries only",
-        "entity addresses of the entities added to the device are distinct; features are obtained through GetOrAddFeature / NextFeatureId (Op.ok / validFrom)",
-        "node-management subscriptions are not duplicated (the duplicate check of the subscription registry is C08's subject)",
-        "interleavings of more than three overlapping GetOrAddFeature calls are explored at random (four to six calls), exhaustively only up to three; beyond that the theorems on the model",
-    ],
-}
+P = {'level_text': 'Theorems (kernel-checked). History level: for EVERY history of API calls the discovery reply computed from the model state, read as maps from addresses, equals the SPEC - what the '
+               'application declared (entities attached; per entity and feature number the type, role, description; per function the read/write flags of its first addition), folded over the calls '
+               'and the numbers they returned; inside the domain the reply has no duplicate keys (c07_refines; per state c07_reply_faithful, for a read overlapping AddEntity / RemoveEntity '
+               'c07_reply_faithful_held; per operation c07_feature_announced, c07_function_announced, c07_function_first_wins, c07_function_client_ignored). Announced CONTENTS: the device '
+               'description of a reply and the destination list - one entry, the constructor arguments (device address, device type, feature set), filters ignored, independent of entities and peers, '
+               'unanswered for an unknown source feature (c07_destination_list; node management announces the destination-list function iff a feature set other than simple is given, '
+               'c07_destination_list_function_announced); every announced feature names each function once, exactly the functions the SPEC declares, with the read / write / partial-write flags of '
+               'the first addition, never a partial read, partial write only with write (c07_supported_functions). Every announced address resolves back to that feature (c07_resolves), announced '
+               "addresses pairwise distinct inside the domain 'an entity is added only while not part of the device' (c07_addresses_unique, with the counterexample outside). Over ANY history the "
+               'partial notifications each peer received are exactly one per AddEntity / RemoveEntity performed while it was subscribed, in order, added with the features / removed without, none '
+               'otherwise (c07_notifications_history; per step c07_entity_added_notification, c07_entity_removed_notification, c07_notifications_only_to_subscribers); what a healthy peer receives '
+               "does not depend on which other peers' connections fail, a failing peer receives nothing (c07_notify_independent_of_other_failures). Numbers fresh and one feature per type and role "
+               'sequentially (c07_ids_fresh_tree, c07_fresh_number, c07_one_feature_per_type_role_sequential, c07_get_or_add_idempotent). NEVER REUSED as a theorem over histories (deepening round): '
+               'for every history and every continuation that does not replace the entity object - it may be removed from the device and added again any number of times - the numbers the object '
+               'hands out (NextFeatureId, or to a feature GetOrAddFeature creates), in the order of time, are strictly increasing, above every number the entity had, and are what the calls returned '
+               '(c07_numbers_never_reused_history). Event model Spine.Feat, ALL interleavings of any number of calls: numbers never duplicated in both members (c07_ids_fresh); all numbers DRAWN from '
+               'the generator, numbers burnt by NextFeatureId included, are strictly increasing in the order of time, both members (c07_numbers_never_reused); a call is handed a feature of the type '
+               "and role it ASKED for, which is in the list at the end (c07_handed_what_was_asked, both members; the model's record of results is exactly the observer's list); a lookup answers or "
+               'leaves the call pending with its request and the creation event of a pending call answers it (c07_call_answered); for the member the current tree is (recheck = true, creation looks '
+               'up again under the lock; regenerated facts c07_creation_rechecks_under_lock, c07_generator_is_one_event, c07_current_tree_one_feature_per_type_role re-checked against the source text '
+               'on every run) one feature per type and role and one and the same feature for every caller - any two calls that ASKED for the same type and role, however their lookups and creations '
+               'interleave (c07_one_feature_per_type_role, c07_same_feature, c07_same_feature_asked; regenerated in addition: every search of the feature list in GetOrAddFeature happens under the '
+               "entity lock, c07_lookup_is_one_event); for the pinned commit's member (recheck = false) refuted by the kernel-checked schedule lookup1 lookup2 create1 create2 "
+               '(c07_one_feature_per_type_role_refuted, c07_same_feature_refuted, c07_same_feature_asked_refuted; finding get-or-add-double-creation, recorded as fixed) and proved when no calls '
+               'overlap (c07_one_feature_per_type_role_partial). Tie: op-by-op differential run against the real DeviceLocal / EntityLocal / FeatureLocal with real subscription, read, reply and '
+               'notify datagrams of three peers, with writer faults as a generator dimension (per peer: healthy, or set up without a writer so that every send to it returns an error - the only way a '
+               'Sender fails, the writer interface has no error return; failing peer first / middle / last in a permuted subscription order; the monitor requires one discovery and one use-case '
+               'notification per change for every healthy subscriber regardless of the others), including reads held in the middle of their walk over the entities while an entity is added or '
+               'removed; witness and all interleavings of two (thorough: three) overlapping GetOrAddFeature calls driven through the yield hook, random interleavings of four to six overlapping calls '
+               'with NextFeatureId calls and non-overlapped calls in between; at the end of every feature history the two observers the schedule theorems are stated with - the numbers drawn from the '
+               'generator in the order of time, and the completed calls as (operation, type asked, role asked, number handed back) - are printed by the model driver and compared with the '
+               "implementation's own record; a probe selects the member. SECOND WAVE. The CONTENT of the notifications is a theorem against the SPEC: over ANY history the notifications a peer "
+               'received, read as maps (added / removed, slot, entity type, feature number to type, role, description, operations), are exactly the list computed from the SPEC maps alone, folded '
+               'over the calls and the numbers they returned; the reading loses nothing (c07_notification_content; per step c07_entity_notification_content: the feature list of an added-notification '
+               'read as a map IS the SPEC feature map of that slot at that prefix). A READ THAT OVERLAPS ADDITIONS is modelled as events (Spine/LocalTreeRead.lean: the entity list is taken once, '
+               'then per entity its feature list, then per feature the operations map and the description - the four lock regions of processReadDetailedDiscoveryData / FeatureLocal.Information; '
+               'application calls interleave anywhere): a read nothing overlaps ends and is the atomic read of the tree model (c07_read_events_refine_atomic_read); with ONE overlapping call of any '
+               'kind at any point of the walk the reply is exactly the tree before the call or exactly the tree after it, a linearisable snapshot (c07_overlapped_read_one_call; hypotheses: the state '
+               'invariant, which every reachable state has, and distinct entity addresses); for ANY schedule with any number of overlapping calls the entity list is the one of the start '
+               '(c07_overlapped_read_entities) and the feature part lies between the tree at the start and the tree at the end of the read, feature by feature: every entry is a feature the tree has '
+               'at the end, with that type and role and only functions it has by then, and every feature of the start has an entry with at least the functions it had then '
+               '(c07_overlapped_read_sandwich); with two overlapping calls the reply can be the tree of no moment - kernel-checked schedule, reproduced on the real code '
+               '(c07_overlapped_read_not_atomic_refuted; an observation, not a finding). Tie: block 1b of TestLocalTree holds the real read at entity boundaries (gate in the entity Information(), '
+               'once or twice per read) while features, functions, descriptions and entities are added, and compares the reply with drv_ltree running the event model (corpus, exhaustive grid 2 hold '
+               'points x held once or moved on x 9 x 9 additions, random histories); a model-free sandwich monitor judges every overlapped reply (entities of the start; every feature between its '
+               "state at the start and at the end). ROUND 6 FOLLOW-UP. The ORDER of the two events of AddEntity / RemoveEntity - the entity joins / leaves the device's list, the change is announced "
+               '- is part of the model (Spine/LocalTreeReact.lean) and regenerated from the source on every run (generator entitylocal: addEntityChangeBeforeNotify, removeEntityChangeBeforeNotify, '
+               'entityListWritesLocked; the list field is found by its type, the notification through helpers on the receiver, defer and explicit unlock alike; c07_tree_changes_before_announcement). '
+               'For every state, operation and peer a detailed-discovery read issued from INSIDE the notification (the sender writes synchronously), or falling between the announcement and the end '
+               'of the call, is answered exactly like a read after the call (c07_read_inside_notification_current); an entity announced as removed is not listed, one announced as added is '
+               '(c07_announced_removed_not_listed, c07_announced_added_listed); the order is necessary: with the announcement first the stale reply occurs in EVERY state in which the entity is part '
+               "of the device (c07_announcement_first_refuted; LTree.react_removed_not_listed_iff / react_added_listed_iff are the iff). Tie: worlds with flag r in TestLocalTree - every peer's "
+               'connection writer answers a partial detailed-discovery notification with a detailed-discovery read through the real datagram path from inside the write; the reply is judged '
+               "model-free (told removed: not listed; told added: listed; equal to the bookkeeping after the operation, addresses resolve) and compared with the model's answer to a read after the "
+               'operation. Worlds with flag s: all three connections (SKIs) announce one and the same SPINE device address with identical entity / feature numbering; model and monitor are per '
+               "connection, so 'each subscribed peer exactly one notification' is checked where peers can only be told apart by connection.",
+ 'level_note': 'Round 5 follow-up: the shared generator `entitylocal` recognises package-level mutexes by type for every form of declaration and locates the use-case helpers in the whole package '
+               "model (design/audit-C07.md, last section); C07's facts unchanged. Audit of the statement clause by clause (theorem, strength before / after the deepening round, tie): "
+               'design/audit-C07.md. The SPEC of c07_refines is folded over the trace (calls WITH the numbers they returned), as the application sees it; that the returned numbers are fresh is '
+               "c07_fresh_number / c07_ids_fresh. The notification SPEC takes the notification's content (entity type, features at that moment) from the model state; c07_refines identifies it with "
+               'the declared one. Trusted: Lean kernel; hand-written models; translator generator `entitylocal` (go/ast, about 450 lines: event traces through helpers and function literals); harness '
+               'incl. its bookkeeping and the schedule driver (A-sched). Domain: distinct entity addresses, features obtained through GetOrAddFeature / NextFeatureId (the API rejects neither a '
+               'duplicate address nor a hand-made duplicate number); RemoveEntity also emits a use-case notify when use-case data exists - not a detailed-discovery notify, not counted (modelled and '
+               'compared). Partial flags are part of the observation: the model takes the partial-update capability of a function on a feature type from the regenerated factory table '
+               "(Spine.Generated.Functions, looked up by name in the driver); the monitor itself only requires 'no partial read, partial write only with write', so a wrong partial-write value shows "
+               'as a correspondence violation. Observations, not judged: a function added again with other flags keeps the flags of its first addition (explicit guard in AddFunctionType; counted as '
+               'fn:again-other-flags-ignored); the destination list is answered even when node management does not announce the function (feature set none / simple); the order of supportedFunction '
+               "follows Go's map iteration and differs from read to read (compared as a set). Order of entities / features in the reply is compared with the model but not required by the monitor. "
+               'Second wave: the content of a notification against the SPEC is a theorem now (c07_notification_content). Overlapped reads: the sandwich (c07_overlapped_read_sandwich) is what the '
+               "harness's model-free monitor judges on the real replies (keys overlapped-read-*); NOT proved - that the description of an entry is one the feature carried since the read started "
+               '(monitored: overlapped-read-description-never-set); the event points between the features of one entity and between Operations() and Description() of one feature are in the model but '
+               'cannot be held by the harness (no hook there; holds are at entity boundaries); a fresh object for a slot (renew) during a held read is outside the event model and not performed; no '
+               'generator re-checks the lock structure of the read against the source text - the differential run with held reads is the tie. The mixture reply under two overlapping additions is '
+               'recorded as an observation (the statement quantifies over reads INTERLEAVED with additions; the read is not one critical section by design), its frequency is a generator floor. '
+               'Observers Spine.Feat.drawn / answers (Spine/FeatureMore.lean) are defined from the event and the state it meets, the model itself is unchanged; res_eq_answers shows they lose nothing '
+               'the model records. Round 6 follow-up: audit table and details in design/audit-C07.md (last section). Not proved: that the read inside the notification is served by the same goroutine '
+               '(the harness waits for it inside the write, bounded by 10 s: an unanswered read is reported as read-inside-notification-unanswered); a reader on another goroutine that falls between '
+               'the two events is covered by the theorem (any read at that moment) and by the order fact, not by a schedule of the harness. In worlds with flag r the held reads of the generator are '
+               'performed plainly (a held read and a read from inside a notification of one peer at the same time could not be told apart).',
+ 'props_modules': ['Spine.Props.C07', 'Spine.Props.C07Gen'],
+ 'generated_props': ['Spine.Props.C07Gen'],
+ 'generated': ['entitylocal', 'functions'],
+ 'generated_files': ['EntityLocal.lean', 'Functions.lean'],
+ 'lemma_modules': ['Spine.LocalTreeThm',
+                   'Spine.LocalTreeSpec',
+                   'Spine.LocalTreeNote',
+                   'Spine.LocalTreeRead',
+                   'Spine.LocalTreeReadThm',
+                   'Spine.FeatureMore',
+                   'Spine.LocalTreeMore',
+                   'Spine.LocalTreeReact'],
+ 'drivers': ['drv_ltree', 'drv_feat'],
+ 'tests': [{'name': 'TestLocalTree'}],
+ 'trusted_base': ['observers Spine.Feat.drawnOf / answerOf and Spine.LTree.drawnAt (which event hands out which number / completes which call) transcribed by hand; compared with the implementation '
+                  'by the harness (drawn, answers) and op by op (returned numbers)',
+                  'models Spine.LTree (device_local.go AddEntity/RemoveEntity/notifySubscribersOfEntity/FeatureByAddress, entity_local.go, entity.go NextFeatureId, feature_local.go '
+                  'AddFunctionType/Information, operations.go, nodemanagement_detaileddiscovery.go:22-50) and Spine.Feat (GetOrAddFeature as lookup/create events) transcribed by hand; names interned '
+                  'to numbers by the harness',
+                  'yield hook spine.VerifYield at site GetOrAddFeature.miss (A-sched); goroutines identified by runtime goroutine id',
+                  'event model of the detailed-discovery read (Spine/LocalTreeRead.lean: which lock region reads what, in which order) transcribed by hand from '
+                  'nodemanagement_detaileddiscovery.go:22-50, entity_local.go Features(), feature.go Operations() / Description(); the gate that holds the real read is a wrapper around '
+                  'EntityLocal.Information() (harness)',
+                  "Spine/LocalTreeReact.lean: 'a read at the moment of the announcement meets the tree before or after the change according to the regenerated order' - the two-event reading of "
+                  'AddEntity / RemoveEntity; what counts as the announcement for the generator: the first call, through helpers on the receiver, of Sender.Notify / NotifySubscribers / a helper named '
+                  'notify...; what counts as the tree: the fields of DeviceLocal whose element type mentions EntityLocal'],
+ 'assumptions': ['A-sched',
+                 'A-mutex',
+                 "a read overlapping AddEntity / RemoveEntity is modelled as 'entity list taken before the operation' (heldRead); reads overlapping feature / function / description additions are "
+                 'modelled as events (Spine/LocalTreeRead.lean) and explored with the read held at entity boundaries only',
+                 'entity addresses of the entities added to the device are distinct; features are obtained through GetOrAddFeature / NextFeatureId (Op.ok / validFrom)',
+                 "node-management subscriptions are not duplicated (the duplicate check of the subscription registry is C08's subject)",
+                 'interleavings of more than three overlapping GetOrAddFeature calls are explored at random (four to six calls), exhaustively only up to three; beyond that the theorems on the model']}
